@@ -684,5 +684,49 @@ func TestVerif_C30(t *testing.T) {
 		r.Inconclusive("no authentication message was ever accepted, so the 'accepted only if' clauses were never exercised from an accepting receiver")
 	}
 	r.Count("distinct_base_messages_accepted", len(mon.accepted))
+	// the real handshake: the accepting side of a peer connection (p2p authenticateNeighbor, as the relayer's accept
+	// loop runs it) is given authentication messages built 0 s .. 3 h before or after the receiver's clock; what
+	// it lets in must be within the handshake's clock-skew window
+	{
+		window := p2p.VerifHandshakeWindowSeconds()
+		hnet := vC30RandHash(rng)
+		recv, sender := vC30NewActor(rng, hnet, true, "handshake-receiver"), vC30NewActor(rng, hnet, false, "handshake-sender")
+		peer := p2p.NewPeer(recv.node, recv.node.IdForNetwork, "127.0.0.1:0", true)
+		base := int64(1_700_100_000)
+		for _, delta := range []int64{0, 1, window - 1, window, window + 1, window + 2, 60, 600, 3600, 9999, 10001, -1, -window, -window - 1, -60, -3600, -10001} {
+			msg := mon.build(sender, recv.node.IdForNetwork, base-delta)
+			if msg == nil {
+				continue
+			}
+			ok := false
+			for attempt := 0; attempt < 6 && !ok; attempt++ {
+				vC30SetClock(base)
+				before := clock.Now().Unix()
+				id, _, err := p2p.VerifHandshake(peer, msg)
+				after := clock.Now().Unix()
+				if before != base || after != base {
+					continue
+				}
+				ok = true
+				r.Eval()
+				r.Count("handshakes_presented", 1)
+				r.Nontrivial(fmt.Sprintf("handshake|%d|%v", delta, err == nil))
+				abs := delta
+				if abs < 0 {
+					abs = -abs
+				}
+				if err == nil && abs > window {
+					r.Violation("C30|p2p.handshake|accepted-outside-clock-skew", fmt.Sprintf("the handshake let in an authentication message stamped %d s away from the receiver's clock (window %d s)", delta, window),
+						map[string]any{"delta_s": delta, "window_s": window, "message": hex.EncodeToString(msg)})
+				}
+				if err == nil && id != sender.node.IdForNetwork {
+					r.Violation("C30|p2p.handshake|peer-id-not-the-sender", "the handshake authenticated another peer id than the sender's", nil)
+				}
+				if err != nil && abs <= window-1 {
+					r.Count("handshakes_inside_the_window_refused", 1)
+				}
+			}
+		}
+	}
 	r.Finish()
 }
